@@ -159,7 +159,7 @@ def _linalg(ctx, p, rng):
 def _compare(ctx, p, rng):
     D, P = p['D'], p['P']
     for shape in [(), (1,), (3,), (2, 2)]:
-        for mode in ('all-less', 'mixed', 'equal', 'one-equal'):
+        for mode in ('all-less', 'mixed', 'equal', 'one-equal', 'nearly-equal'):
             a = gen.series_data(rng, D, P, shape, 'R', 'random', False, 1.0)
             b = a.copy()
             b[1:] = rng.normal(size=b[1:].shape) * 3        # higher coefficients must not matter
@@ -167,6 +167,8 @@ def _compare(ctx, p, rng):
                 b[0] = a[0] + rng.uniform(0.1, 1.0, size=a[0].shape)
             elif mode == 'mixed':
                 b[0] = a[0] + rng.choice([-1.0, 1.0], size=a[0].shape) * rng.uniform(0.1, 1.0, size=a[0].shape)
+            elif mode == 'nearly-equal':
+                b[0] = a[0] * (1.0 + 1e-9) + 1e-12          # different, but closer than any 'allclose' tolerance
             elif mode == 'one-equal':
                 b[0] = a[0] + rng.uniform(0.1, 1.0, size=a[0].shape)
                 if a[0].size:
